@@ -31,7 +31,8 @@ use hickory_net::{DnsError, ForwardNSData, NetError, NoRecords};
 use hickory_proto::op::{Message, OpCode, Query, ResponseCode};
 use hickory_proto::rr::rdata::{A, AAAA, CNAME, MX, NS, SOA, TXT};
 use hickory_proto::rr::{Name, RData, Record, RecordType};
-use hickory_resolver::{ResponseCache, TtlConfig};
+use hickory_resolver::config::ResolverOpts;
+use hickory_resolver::{ResponseCache, TtlBounds, TtlConfig};
 use serde_json::{json, Value};
 use vcore::{bfs, catch, Ctx, Local};
 use vref::cache::{self as rc, Bounds, Config, Model, Observation, Stored, Verdict};
@@ -422,6 +423,25 @@ impl CfgSpec {
     fn real(&self) -> TtlConfig {
         serde_json::from_value(self.to_json()).expect("TtlConfig from JSON")
     }
+    /// The other construction path: `TtlConfig::from_opts(&ResolverOpts)` for the default bounds and
+    /// `with_query_type_ttl_bounds` for the per-type overrides.
+    fn real_via_opts(&self) -> TtlConfig {
+        let d = |v: Option<u64>| v.map(Duration::from_secs);
+        let mut o = ResolverOpts::default();
+        o.positive_min_ttl = d(self.default.pos_min);
+        o.positive_max_ttl = d(self.default.pos_max);
+        o.negative_min_ttl = d(self.default.neg_min);
+        o.negative_max_ttl = d(self.default.neg_max);
+        let mut c = TtlConfig::from_opts(&o);
+        for (name, _, b) in &self.by_type {
+            let tb: TtlBounds = serde_json::from_value(bounds_json(b)).expect("TtlBounds from JSON");
+            c.with_query_type_ttl_bounds(RecordType::from_str(name).expect("record type"), tb);
+        }
+        c
+    }
+    fn build(&self, via_opts: bool) -> TtlConfig {
+        if via_opts { self.real_via_opts() } else { self.real() }
+    }
 }
 
 fn pos(min: Option<u64>, max: Option<u64>) -> Bounds {
@@ -599,6 +619,9 @@ struct Instance {
     probe_queries: Vec<usize>,
     probe_offsets: &'static [u64],
     ops: Vec<Op>,
+    /// knobs: cache capacity (entries), TtlConfig built through from_opts / with_query_type_ttl_bounds
+    capacity: u64,
+    via_opts: bool,
 }
 
 const PROBE_OFFSETS_MS: [u64; 12] = [0, 400, 600, 1000, 1400, 2000, 2600, 3000, 4000, 5000, 5400, 7000];
@@ -629,7 +652,7 @@ fn tick() {
 /// positions >= `count_from` and the probes are counted as evaluations. Returns the canonical
 /// key of the final model state and the digest of the probe observations.
 fn execute(env: &Env, inst: &Instance, hist: &[Op], count_from: usize, probes: bool, l: &mut Local) -> ExecOut {
-    let cache = ResponseCache::new(64, inst.real_cfg.clone());
+    let cache = ResponseCache::new(inst.capacity, inst.real_cfg.clone());
     let mut model = Model::new(inst.model_cfg.clone());
     let case = |upto: usize, probe: Option<(usize, u64)>| {
         json!({
@@ -637,6 +660,8 @@ fn execute(env: &Env, inst: &Instance, hist: &[Op], count_from: usize, probes: b
             "history": hist[..upto].iter().map(|o| op_json(o, env)).collect::<Vec<_>>(),
             "probe": probe.map(|(q, off)| json!({"q": q, "offset_ms": off})),
             "probe_queries": inst.probe_queries,
+            "capacity": inst.capacity,
+            "via_opts": inst.via_opts,
         })
     };
     let get = |model: &mut Model, qi: usize, at_ms: u64, count: bool, l: &mut Local, upto: usize, probe: Option<(usize, u64)>| -> u64 {
@@ -770,6 +795,7 @@ struct GridSpec {
     dts: Vec<u32>,
     max_depth: usize,
     coarse_probes: bool,
+    via_opts: bool,
 }
 
 fn foreign_query(qs: &[usize]) -> usize {
@@ -814,13 +840,15 @@ fn instances(env: &Env, cfgs: &[CfgSpec], g: &GridSpec, seed: u64) -> Vec<Instan
             out.push(Instance {
                 grid: g.name,
                 cfg_idx: ci,
-                real_cfg: cfg.real(),
+                real_cfg: cfg.build(g.via_opts),
                 model_cfg: cfg.model(),
                 cfg,
                 queries: qs.clone(),
                 probe_queries,
                 probe_offsets: if g.coarse_probes { &PROBE_OFFSETS_COARSE_MS } else { &PROBE_OFFSETS_MS },
                 ops,
+                capacity: 64,
+                via_opts: g.via_opts,
             });
         }
     }
@@ -965,16 +993,19 @@ fn main() {
         let hist: Vec<Op> = case["history"].as_array().map(|a| a.iter().map(|o| op_from_json(o, &env)).collect()).unwrap_or_default();
         let probe_queries: Vec<usize> =
             case["probe_queries"].as_array().map(|a| a.iter().map(|x| x.as_u64().unwrap() as usize).collect()).unwrap_or_else(|| vec![0, 1, 2]);
+        let via_opts = case["via_opts"].as_bool().unwrap_or(false);
         let inst = Instance {
             grid: "replay",
             cfg_idx: 0,
-            real_cfg: cfg.real(),
+            real_cfg: cfg.build(via_opts),
             model_cfg: cfg.model(),
             cfg,
             queries: vec![0, 1, 2],
             probe_queries,
             probe_offsets: &PROBE_OFFSETS_MS,
             ops: vec![],
+            capacity: case["capacity"].as_u64().unwrap_or(64),
+            via_opts,
         };
         ctx.with_local(|l| match catch(|| execute(&env, &inst, &hist, 0, true, l)) {
             Ok(_) => {}
@@ -1078,6 +1109,7 @@ fn main() {
             dts: vec![0, 400, 600, 1000, 2000, 4000],
             max_depth: 40,
             coarse_probes: false,
+            via_opts: false,
         },
         &mut base_id,
     );
@@ -1107,6 +1139,7 @@ fn main() {
             dts: if quick { vec![400, 600, 1000, 2000] } else { vec![0, 400, 600, 1000, 2000, 4000] },
             max_depth: 40,
             coarse_probes: true,
+            via_opts: false,
         },
         &mut base_id,
     );
@@ -1125,6 +1158,7 @@ fn main() {
             dts: if quick { vec![600, 1000, 2000] } else { vec![400, 600, 1000, 2000] },
             max_depth: if quick { 6 } else { 40 },
             coarse_probes: true,
+            via_opts: false,
         },
         &mut base_id,
     );
@@ -1143,6 +1177,7 @@ fn main() {
             dts: vec![400, 1000, 2000],
             max_depth: if quick { 4 } else { 5 },
             coarse_probes: false,
+            via_opts: false,
         };
         let insts = instances(&env, &cfgs, &g, ctx.seed);
         let mut free_states = 0u64;
@@ -1161,6 +1196,261 @@ fn main() {
         }
     }
     let _ = base_id;
+
+    // knob: the other construction path of the configuration (ResolverOpts -> TtlConfig::from_opts,
+    // with_query_type_ttl_bounds). Its bounds must be the declared ones, and the cache built from it is
+    // run through a grid of its own.
+    ctx.with_local(|l| {
+        for c in &cfgs {
+            let real = c.real_via_opts();
+            let model = c.model();
+            for (rt, code) in [(RecordType::A, 1u16), (RecordType::AAAA, 28), (RecordType::TXT, 16), (RecordType::CNAME, 5), (RecordType::NS, 2), (RecordType::MX, 15), (RecordType::SOA, 6)] {
+                l.eval();
+                let p = real.positive_response_ttl_bounds(rt).into_inner();
+                let ng = real.negative_response_ttl_bounds(rt).into_inner();
+                let want = (model.positive(code), model.negative(code));
+                let got = ((p.0.as_secs(), p.1.as_secs()), (ng.0.as_secs(), ng.1.as_secs()));
+                if got != want {
+                    l.violation(
+                        "config:from_opts-bounds-differ-from-the-configured-ones",
+                        &format!("type {rt}: configured (positive, negative) = {want:?}, TtlConfig::from_opts / with_query_type_ttl_bounds give {got:?}"),
+                        || json!({"config_ctor": true, "cfg": c.to_json()}),
+                    );
+                }
+            }
+        }
+    });
+    run(
+        GridSpec {
+            name: "single-via-from_opts",
+            cfgs: if quick { all_cfgs.iter().copied().filter(|i| i % 3 == 1 || *i >= 30).collect() } else { all_cfgs.clone() },
+            query_sets: vec![vec![0]],
+            shapes: if quick {
+                vec!["q0", "q2", "q1+q5", "cname1+q5", "q2+ns7+glue1", "q5+auq1", "mx2", "neg-none", "neg1-full", "neg5-ns", "err-timeout"]
+            } else {
+                near_shapes.clone()
+            },
+            dts: vec![400, 600, 1000, 2000, 4000],
+            max_depth: 40,
+            coarse_probes: false,
+            via_opts: true,
+        },
+        &mut base_id,
+    );
+
+    // boundary family (E-ENUM): one insert, one get exactly AT the expiry instant and 1 ns / 1 ms before
+    // and after it (the BFS ages are multiples of 200 ms)
+    {
+        let mut cases = vec![];
+        for ci in 0..cfgs.len() {
+            for q in 0..3usize {
+                for r in 0..shapes().len() {
+                    cases.push((ci, q, r));
+                }
+            }
+        }
+        let model_cfgs: Vec<Config> = cfgs.iter().map(|c| c.model()).collect();
+        let real_cfgs: Vec<TtlConfig> = cfgs.iter().map(|c| c.real()).collect();
+        ctx.set("boundary_family_cases", json!(cases.len() * 7));
+        ctx.par_run(cases.len() as u64, 64, |i, l| {
+            let (ci, q, r) = cases[i as usize];
+            let st = &env.stored[q][r];
+            let Some(lsecs) = rc::lifetime_secs(&model_cfgs[ci], env.queries[q].code, st) else { return };
+            let kind = if matches!(st, Stored::Positive { .. }) { "positive" } else { "negative" };
+            for delta_ns in [-1_000_000_000i64, -1_000_000, -1, 0, 1, 1_000_000, 1_000_000_000] {
+                let total_ns = lsecs as i64 * 1_000_000_000 + delta_ns;
+                if total_ns < 0 {
+                    continue;
+                }
+                l.eval();
+                let cache = ResponseCache::new(64, real_cfgs[ci].clone());
+                cache.insert(env.queries[q].query.clone(), env.results[q][r].clone(), at(0));
+                let res = cache.get(&env.queries[q].query, *BASE + Duration::from_nanos(total_ns as u64));
+                let obs = env.observe(q, res, Some(r));
+                let case = || json!({"boundary": true, "cfg": cfgs[ci].to_json(), "q": q, "r": env.shapes[r].0, "get_at_ns_after_insert": total_ns, "L_s": lsecs});
+                let elapsed_ms = (total_ns / 1_000_000) as u64;
+                match (&obs, st) {
+                    (Observation::Miss, _) => l.outcome(if delta_ns > 0 { "boundary:miss-after-expiry" } else { "boundary:miss-before-expiry" }),
+                    (Observation::OtherError, _) => l.violation("transient-error-returned", "get returned an error that is not a negative answer", case),
+                    (_, _) if delta_ns > 0 => l.violation(
+                        &format!("served-after-expiry:{kind}"),
+                        &format!("entry returned {delta_ns} ns after its expiry instant (L = {lsecs} s)"),
+                        case,
+                    ),
+                    (Observation::Positive { id, ttls }, Stored::Positive { records }) => {
+                        let want = rc::expected_positive_ttls(&model_cfgs[ci], records, elapsed_ms);
+                        if *id != Some(r) || *ttls != want {
+                            l.violation("ttl-mismatch:positive:at-the-boundary", &format!("reported {ttls:?}, expected {want:?} at {total_ns} ns"), case);
+                        } else {
+                            l.outcome("boundary:hit-before-or-at-expiry");
+                        }
+                    }
+                    (Observation::Negative { id, negative_ttl, embedded }, Stored::Negative { negative_ttl: n0, embedded: e0 }) => {
+                        let want = rc::expected_negative_ttls(*n0, e0, elapsed_ms);
+                        if *id != Some(r) || (negative_ttl, embedded) != (&want.0, &want.1) {
+                            l.violation("ttl-mismatch:negative:at-the-boundary", &format!("reported {negative_ttl:?} {embedded:?}, expected {want:?} at {total_ns} ns"), case);
+                        } else {
+                            l.outcome("boundary:hit-before-or-at-expiry");
+                        }
+                    }
+                    _ => l.violation("not-last-inserted:boundary", "kind of the returned entry differs from the inserted one", case),
+                }
+            }
+        });
+    }
+
+    // capacity family (E-ENUM, no state matching: moka evicts lazily): caches of 0, 1 and 2 entries, every
+    // op sequence of length <= 4 over insert / get on three queries and a 1 s advance; eviction may only
+    // make gets miss, a hit must still be the last insert of that query with the right TTLs
+    {
+        let cap_cfgs = [0usize, 9, 27];
+        let mut ops = vec![];
+        for q in 0..3u8 {
+            for s in ["q2", "neg3"] {
+                ops.push(Op::Insert(q, env.shape_idx(s)));
+            }
+        }
+        for q in 0..3u8 {
+            ops.push(Op::Get(q));
+        }
+        ops.push(Op::Advance(1000));
+        let insts: Vec<Instance> = cap_cfgs
+            .iter()
+            .flat_map(|ci| {
+                let c = cfgs[*ci].clone();
+                [0u64, 1, 2].into_iter().map(move |cap| Instance {
+                    grid: "capacity",
+                    cfg_idx: 2000 + *ci,
+                    real_cfg: c.real(),
+                    model_cfg: c.model(),
+                    cfg: c.clone(),
+                    queries: vec![0, 1, 2],
+                    probe_queries: vec![0, 1, 2],
+                    probe_offsets: &PROBE_OFFSETS_COARSE_MS,
+                    ops: vec![],
+                    capacity: cap,
+                    via_opts: false,
+                })
+            })
+            .collect();
+        let k = ops.len() as u64;
+        let depth = if quick { 3 } else { 4 };
+        let per: u64 = (0..=depth).map(|d| k.pow(d)).sum();
+        ctx.set("capacity_family_histories", json!(per * insts.len() as u64));
+        ctx.par_run(per * insts.len() as u64, 64, |idx, l| {
+            let inst = &insts[(idx / per) as usize];
+            let mut i = idx % per;
+            let mut len = 0u32;
+            while i >= k.pow(len) {
+                i -= k.pow(len);
+                len += 1;
+            }
+            let mut h = Vec::with_capacity(len as usize);
+            for _ in 0..len {
+                h.push(ops[(i % k) as usize]);
+                i /= k;
+            }
+            let before = l.outcomes.get("get:live-hit").copied().unwrap_or(0);
+            if let Err(p) = catch(|| execute(&env, inst, &h, 0, true, l)) {
+                l.violation(&format!("panic:{}", vcore::short_loc(&p.loc)), &p.msg, || {
+                    json!({"cfg": inst.cfg.to_json(), "history": h.iter().map(|o| op_json(o, &env)).collect::<Vec<_>>(), "probe_queries": [0, 1, 2], "capacity": inst.capacity})
+                });
+            }
+            if inst.capacity > 0 && l.outcomes.get("get:live-hit").copied().unwrap_or(0) > before {
+                l.outcome("capacity:hit-in-a-small-cache");
+            }
+        });
+    }
+
+    // relay family (E-ENUM): an answer served by cache 1 at age a is inserted into cache 2; whatever cache 2
+    // serves at age b must still respect the ORIGINAL lifetime = the TTLs as received (counting a in whole
+    // seconds, the TTL granularity) and may not report more than the original TTL minus both elapsed times. Configurations
+    // without minima (a minimum legitimately restarts the clamp in every cache).
+    {
+        let relay_cfgs: Vec<usize> = (0..cfgs.len())
+            .filter(|i| {
+                let c = &cfgs[*i];
+                c.default.pos_min.is_none() && c.default.neg_min.is_none() && c.by_type.iter().all(|(_, _, b)| b.pos_min.is_none() && b.neg_min.is_none())
+            })
+            .collect();
+        let mut cases = vec![];
+        for &ci in &relay_cfgs {
+            for q in 0..3usize {
+                for r in 0..shapes().len() {
+                    for a in [0u64, 400, 1000, 1400, 2000, 3600] {
+                        cases.push((ci, q, r, a));
+                    }
+                }
+            }
+        }
+        ctx.set("relay_family_cases", json!(cases.len()));
+        ctx.par_run(cases.len() as u64, 64, |i, l| {
+            let (ci, q, r, a) = cases[i as usize];
+            let st = &env.stored[q][r];
+            let mcfg = cfgs[ci].model();
+            if rc::lifetime_secs(&mcfg, env.queries[q].code, st).is_none() {
+                return;
+            }
+            // the ORIGINAL lifetime: the TTLs as received (a maximum is local policy of each cache and may
+            // only shorten; the negative_ttl field is handed on unclamped)
+            let unbounded = Config::default();
+            let Some(l1) = rc::lifetime_secs(&unbounded, env.queries[q].code, st) else { return };
+            let query = &env.queries[q].query;
+            let c1 = ResponseCache::new(64, cfgs[ci].real());
+            c1.insert(query.clone(), env.results[q][r].clone(), at(0));
+            let Some(served) = c1.get(query, at(a)) else { return };
+            let c2 = ResponseCache::new(64, cfgs[ci].real());
+            c2.insert(query.clone(), served, at(a));
+            for b in PROBE_OFFSETS_MS {
+                l.eval();
+                let res = c2.get(query, at(a + b));
+                let obs = env.observe(q, res, Some(r));
+                let case = || json!({"relay": true, "cfg": cfgs[ci].to_json(), "q": q, "r": env.shapes[r].0, "relayed_at_ms": a, "second_get_after_ms": b, "L_s": l1});
+                let total_ms = (a / 1000) * 1000 + b;
+                let down = |v: u32| -> u32 { rc::counted_down(v as u64, (a / 1000) * 1000).saturating_sub((b / 1000) as u32) };
+                match (&obs, st) {
+                    (Observation::Miss, _) => l.outcome("relay:miss"),
+                    (Observation::OtherError, _) => l.violation("transient-error-returned", "the second cache returned an error that is not a negative answer", case),
+                    (_, _) if total_ms > l1 * 1000 => l.violation(
+                        "relay:served-beyond-the-original-lifetime",
+                        &format!("second cache serves the answer {b} ms after it was relayed at age {a} ms; original L = {l1} s"),
+                        case,
+                    ),
+                    (Observation::Positive { ttls, .. }, Stored::Positive { records }) => {
+                        let want: Vec<u32> = rc::expected_positive_ttls(&unbounded, records, 0).into_iter().map(down).collect();
+                        if ttls.len() != want.len() || ttls.iter().zip(want.iter()).any(|(g, w)| g > w) {
+                            l.violation("relay:ttl-too-high", &format!("second cache reports {ttls:?}, the original TTLs minus both elapsed times are {want:?}"), case);
+                        } else {
+                            l.outcome("relay:hit");
+                        }
+                    }
+                    (Observation::Negative { negative_ttl, embedded, .. }, Stored::Negative { negative_ttl: n0, embedded: e0 }) => {
+                        let want_e: Vec<u32> = e0.iter().map(|v| down(*v)).collect();
+                        let want_n = n0.map(down);
+                        let bad = embedded.len() != want_e.len() || embedded.iter().zip(want_e.iter()).any(|(g, w)| g > w) || matches!((negative_ttl, want_n), (Some(g), Some(w)) if *g > w);
+                        if bad {
+                            l.violation("relay:ttl-too-high", &format!("second cache reports {negative_ttl:?} {embedded:?}, expected at most {want_n:?} {want_e:?}"), case);
+                        } else {
+                            l.outcome("relay:hit");
+                        }
+                    }
+                    _ => l.violation("not-last-inserted:relay", "kind of the relayed entry changed", case),
+                }
+            }
+        });
+    }
+
+    // observation only: RFC 2181 section 8 wants a TTL with the most significant bit set treated as zero;
+    // the statement only says "clamped to the configured bounds" (hickory: the default maximum of one day)
+    ctx.with_local(|l| {
+        let cache = ResponseCache::new(8, TtlConfig::default());
+        let q = env.queries[0].query.clone();
+        cache.insert(q.clone(), env.results[0][env.shape_idx("far-q2^31") as usize].clone(), at(0));
+        match cache.get(&q, at(3_600_000)) {
+            Some(Ok(m)) => l.outcome(if m.answers[0].ttl > 0 { "obs:ttl-with-the-sign-bit-set-is-cached-up-to-the-default-maximum(RFC-2181-8-says-treat-as-0)" } else { "obs:ttl-with-the-sign-bit-set-reported-as-0" }),
+            _ => l.outcome("obs:ttl-with-the-sign-bit-set-is-not-cached"),
+        }
+    });
 
     // far grid (E-ENUM): the documented default maximum of one day and u32 limits
     {
@@ -1203,6 +1493,8 @@ fn main() {
                 probe_queries: vec![0, 1, 2],
                 probe_offsets: &PROBE_OFFSETS_MS,
                 ops: vec![],
+                capacity: 64,
+                via_opts: false,
             })
             .collect();
         ctx.set("far_grid_cases", json!(cases.len()));
